@@ -60,7 +60,7 @@ Proof.
 Qed.
 Theorem empty_world_frame_lemma o : Forall clean (eo_trash_dirs o) ->
   all_runs (fun t _ => forall q,
-      (forall td p, td_shape (eo_environ o) (eo_uid o) (eo_trash_dirs o) td -> clean td -> target_in td p -> under p q = false) ->
+      (forall td p, td_shape (eo_homes o) (eo_uids o) (eo_trash_dirs o) td -> clean td -> target_in td p -> under p q = false) ->
       forall s s', wrun s t s' -> wfs s' q = wfs s q) (empty_main o).
 Proof.
   intros H. generalize (empty_targets_inside_lemma o H). apply all_runs_mono.
@@ -68,7 +68,7 @@ Proof.
 Qed.
 Theorem rm_world_frame_lemma o :
   all_runs (fun t _ => forall q,
-      (forall td p, td_shape (ro_environ o) (ro_uid o) [] td -> clean td -> target_in td p -> under p q = false) ->
+      (forall td p, td_shape (home_trash_dir_path_from_env (ro_environ o)) [ro_uid o] [] td -> clean td -> target_in td p -> under p q = false) ->
       forall s s', wrun s t s' -> wfs s' q = wfs s q) (rm_main o).
 Proof.
   generalize (rm_targets_inside_lemma o). apply all_runs_mono.
